@@ -9,6 +9,11 @@ CLAIMED = {
 		text='Every obligation (pre@call, post, loop invariant init/preservation, variant, exception-freedom) generated from the current source of the block-splitting helpers is discharged for all inputs; the quote-domination part of the no-cut-inside-quotes law is a labelled bounded stand-in.',
 		note='pyvc encoding of the Python subset; z3/cvc5 soundness; spec functions in specs/brackets.py are the oracle; bounded parts listed in evidence.bounded_checks',
 		ref='DESIGN.md §4 C18'),
+	'C05': dict(
+		level='proof',
+		text='Proved for all inputs: storing and restoring symbols are both gated on CacheSetting.enabled (no symbols file is read or written with caching disabled), the disabled proxy only runs the factory, the enabled proxy returns the file under the key\'s path or the factory value, and the symbol-cache key is an injective function of the ordered content hashes of the module and its direct imports. The whole-history statement (warm == cold over edit/run/clear histories, truncated cache files) is a bounded pipeline twin on the real CLI, never counted as proved; the transitive-import case is known finding F-C05-a.',
+		note='md5 injective, file-system and json/pickle externals assumed; CacheProvider closure and save/load plumbing only in the bounded twin',
+		ref='DESIGN.md §4 C05'),
 	'C06': dict(
 		level='proof',
 		text='Proved for all inputs: the header written into an output is read back to the same value (MetaHeader.__init__/to_json/to_header_str/from_json/try_from_content on the shape entrypoint.j2 writes), headers compare equal exactly when all five recorded fields agree, a module is selected for regeneration iff no header is readable or a recorded field differs from the current one, and the output-path rule equals its specification (first matching entry; per-rule injectivity lemma). The whole-run equality with a forced run additionally needs the dependency frame of transpile(): known finding F-C06-a, replayed on the real CLI on every run.',
@@ -39,7 +44,7 @@ NOT_APPLICABLE = {
 	'C02': 'equality of two parsers over all texts (lark LALR engine interpreting grammar data vs CPython): no function contract of tranp carries it; only differential testing could, which is a different family (DESIGN.md §5)',
 	'C03': 'type soundness of the inference engine against CPython run-time types needs formal semantics of both languages and the stub library; not expressible as a contract over one call or data structure (DESIGN.md §5)',
 }
-PENDING = {p: 'designed in DESIGN.md §4, contracts not built yet in this round' for p in ['C01','C04','C05','C07','C08','C09','C10','C11','C12','C13','C14']}
+PENDING = {p: 'designed in DESIGN.md §4, contracts not built yet in this round' for p in ['C01','C04','C07','C08','C09','C10','C11','C12','C13','C14']}
 
 def main():
 	checks = []
